@@ -64,6 +64,12 @@ InitAny == /\ src \in [Pkgs -> Variants]
            /\ hist = <<>>
            /\ last = [cmd |-> "none", args |-> [pkgs |-> {}], exit |-> 0]
 
+\* the same for three packages, with fewer source variants and contents (TLC's simulator enumerates all initial states first)
+InitAny3 == /\ src \in [Pkgs -> {"okA", "okB", "bad", "noinj", "tagbad"}]
+            /\ disk \in [Slot -> {"absent", "stale", Fresh("okA", "none", ""), Fresh("okB", "none", ""), Fresh("okA", "ok", "extra more")}]
+            /\ hist = <<>>
+            /\ last = [cmd |-> "none", args |-> [pkgs |-> {}], exit |-> 0]
+
 \* focused one-step histories: every combination of source variants with output files that are absent, stale or
 \* exactly fresh for some (header, tags) - the states in which diff / gen status and isolation are decided
 InitFocus == /\ src \in [Pkgs -> Variants]
